@@ -245,11 +245,32 @@ def main():
             failures += engine.run_histories(hs, harness, proj, stats) if hs else []
             failures += engine.run_histories(props.WORKLOADS[pid](tier, rng), harness, proj, stats)
 
-    # ---- 2b. C07 / C15 also say "never reads or writes out of bounds": the same workload once more under
+    # ---- 2a. C19: the Dijkstra correspondence is broken but no explored history exceeds the bound -> guided search
+    #          for a graph on which the implementation does (vlib/c19search.py); confirmed through the usual path
+    guided = None
+    if (pid == "C19" and harness and failures and not args.replay and os.path.exists(core.DRIVER)
+            and not any(f["mismatch"]["kind"] == "violation" for f in failures)
+            and any(str(f["mismatch"].get("op", "")).startswith("dijkstra") for f in failures)):
+        from vlib import c19search
+        t0 = time.time()
+        try:    # an optimised build of the same harness evaluates ~20x more graphs per second than the sanitizer build
+            fast = core.build_harness(name="bghO2", flags=["-O2"])
+        except core.BuildError:
+            fast = harness
+        cand, tried = c19search.search(fast, seed, budget_s=75 if tier == "quick" else 300)
+        guided = {"graphs_evaluated": tried, "found": cand is not None, "wall_s": round(time.time() - t0, 1)}
+        if cand is not None:
+            m, _ = engine.run_one(cand, harness, proj, tag="c19search")
+            if m is not None and m["kind"] == "violation":
+                failures.insert(0, dict(ops=cand, meta={"family": "guided-search"}, mismatch=m))
+            else:
+                guided["found"] = False
+
+    # ---- 2b. C07 / C15 also say "never reads or writes out of bounds" (and C08: every traversal "is defined"): the same workload once more under
     #          libstdc++'s debug mode, whose assertions see what ASan cannot (an access inside a small-string
     #          buffer, `back()` of an empty string, an invalidated iterator)
     debug_mode = None
-    if pid in ("C07", "C15") and harness and special is not None and os.path.exists(core.DRIVER) and not args.replay:
+    if pid in ("C07", "C08", "C15") and harness and special is not None and os.path.exists(core.DRIVER) and not args.replay:
         cfg = special.CONFIGS_QUICK[1]
         try:
             dbg = core.build_harness(name="bgh17-" + cfg[0], flags=cfg[2], compiler=cfg[1], defines=cfg[3])
@@ -325,6 +346,8 @@ def main():
     })
     if debug_mode is not None:
         cov["libstdcxx_debug_mode"] = debug_mode
+    if guided is not None:
+        cov["guided_search_for_failing_input"] = guided
     if api is not None:
         cov["entry_points_taking_a_vertex_index"] = api[0]
         cov["entry_points_not_covered"] = api[1]
